@@ -211,6 +211,50 @@ def fn_tree(spec, rec):
     fresh = Builder(data, "ctor").build(tspec)
     check_mask(data.get_mask(fresh), expected, "fresh-tree-differs")
 
+    # seen from a dataset joined by key (Data.get_mask falls back to key joins when the selection cannot be evaluated directly):
+    # the joined rows carry the composite's mask, before and after evaluations that cannot succeed
+    if spec.get("join"):
+        from glue.core import Data
+        from glue.core.exceptions import IncompatibleAttribute
+        n = int(data.size)
+        keys = list(range(n))[::-1] + [n, n + 1]
+        lone = Data(label="lone", k=np.array(keys))
+        needs_join = False
+        try:
+            lone.get_mask(tree)
+            rec.label("join:selection-evaluable-without-the-join")
+        except IncompatibleAttribute:
+            needs_join = True
+        except Exception as e:  # noqa
+            if blame(e)[0] != "glue":
+                raise
+            rec.label("join:lone-evaluation-raises:" + type(e).__name__)
+        if needs_join:
+            data.add_component(np.arange(n).reshape(data.shape), "key__")
+            J = Data(label="J", k=np.array(keys))
+            J.join_on_key(data, "k", "key__")
+            exp_j = np.array([bool(expected.ravel()[k]) if k < n else False for k in keys])
+
+            def read_j(state, sig):
+                try:
+                    got_j = np.asarray(J.get_mask(state))
+                except IncompatibleAttribute:
+                    raise Mismatch(sig + "/incompatible", None)
+                check_mask(got_j, exp_j, sig)
+            read_j(tree, "joined-dataset-differs")
+            foreign = Data(label="foreign", z=[1, 2, 3]).id["z"] > 1
+            for order in ((data, J), (J, data), (data, data)):
+                for d in order:
+                    try:
+                        d.get_mask(foreign)
+                        raise Mismatch("foreign-selection-evaluates", None)
+                    except IncompatibleAttribute:
+                        pass
+                read_j(tree, "joined-dataset-differs-after-failed-evaluations")
+                check_mask(np.asarray(data.get_mask(tree)), expected, "composite-differs-after-failed-evaluations")
+            read_j(Builder(data, "ctor").build(tspec), "joined-dataset-differs/fresh-tree")
+            rec.label("join:checked")
+
     kinds = {gen.leaf_kind(l) for l in leaves}
     depth = gen.tree_depth(tspec)
     rec.nt(depth >= 2 and len(kinds) >= 2 and expected.any() and not expected.all())
@@ -333,7 +377,7 @@ def tree_cases(draw, max_leaves=8):
         else:
             sched.append([draw(st.integers(0, 20)), draw(gen.view_spec(dspec["shape"], kinds=("none", "ellipsis", "tuple", "short", "bool")))])
     view = draw(st.one_of(st.none(), gen.view_spec(dspec["shape"], kinds=("tuple", "short", "mixed", "bool", "fancy"))))
-    return {"data": dspec, "tree": tspec, "how": how, "schedule": sched, "view": view}
+    return {"data": dspec, "tree": tspec, "how": how, "schedule": sched, "view": view, "join": draw(st.booleans())}
 
 
 @st.composite
